@@ -1,8 +1,8 @@
 //! Scenario description: everything that determines one simulated execution.
 use crate::net::Link;
-use serde::Serialize;
+use serde::{Deserialize, Serialize};
 
-#[derive(Clone, Debug, Serialize, PartialEq)]
+#[derive(Clone, Debug, Serialize, Deserialize, PartialEq)]
 pub struct SpecCfg {
     pub host: usize,
     pub catchup: usize,
@@ -20,7 +20,7 @@ impl SpecCfg {
     }
 }
 
-#[derive(Clone, Debug, Serialize, PartialEq)]
+#[derive(Clone, Debug, Serialize, Deserialize, PartialEq)]
 pub struct NodeCfg {
     /// tick period multiplier minus one (0.05 = 5 % slower)
     pub skew: f64,
@@ -40,12 +40,12 @@ impl Default for NodeCfg {
     }
 }
 
-#[derive(Clone, Debug, Serialize, PartialEq)]
+#[derive(Clone, Debug, Serialize, Deserialize, PartialEq)]
 pub enum Trigger {
     AtMs(u64),
     AtFrame(i32),
 }
-#[derive(Clone, Debug, Serialize, PartialEq)]
+#[derive(Clone, Debug, Serialize, Deserialize, PartialEq)]
 pub enum Misuse {
     /// add_local_input for a handle that is not local (remote, spectator or unknown)
     InputForHandle(usize),
@@ -55,7 +55,7 @@ pub enum Misuse {
     SetDelayHandle(usize, usize),
     StatsHandle(usize),
 }
-#[derive(Clone, Debug, Serialize, PartialEq)]
+#[derive(Clone, Debug, Serialize, Deserialize, PartialEq)]
 pub enum Act {
     SetDelay { h: usize, d: usize },
     Disconnect { h: usize },
@@ -63,21 +63,21 @@ pub enum Act {
     /// the part of a failing advance_frame that is legitimately effective (twin of AdvanceMissingInput)
     BarePoll,
 }
-#[derive(Clone, Debug, Serialize, PartialEq)]
+#[derive(Clone, Debug, Serialize, Deserialize, PartialEq)]
 pub struct Action {
     pub node: usize,
     pub when: Trigger,
     pub act: Act,
 }
 
-#[derive(Clone, Debug, Serialize, PartialEq)]
+#[derive(Clone, Debug, Serialize, Deserialize, PartialEq)]
 pub struct Kill {
     pub node: usize,
     pub at_ms: u64,
     pub pdrop: f64,
 }
 
-#[derive(Clone, Debug, Serialize, PartialEq)]
+#[derive(Clone, Debug, Serialize, Deserialize, PartialEq)]
 pub enum Start {
     /// a node starts advancing as soon as its own session is Running (what an application does)
     Own,
@@ -87,7 +87,7 @@ pub enum Start {
     AtMs(u64),
 }
 
-#[derive(Clone, Debug, Serialize, PartialEq)]
+#[derive(Clone, Debug, Serialize, Deserialize, PartialEq)]
 pub struct Inject {
     /// victim node index and the address the forged packets claim to come from
     pub victim: usize,
@@ -106,7 +106,7 @@ pub struct Inject {
     pub replay_genuine: bool,
 }
 
-#[derive(Clone, Debug, Serialize, PartialEq)]
+#[derive(Clone, Debug, Serialize, Deserialize, PartialEq)]
 pub struct Scn {
     pub seed: u64,
     /// 0 PredictRepeatLast, 1 PredictDefault
@@ -215,4 +215,27 @@ pub const TOPOLOGIES: &[&[&[usize]]] = &[
 ];
 pub fn topo(i: usize) -> Vec<Vec<usize>> {
     TOPOLOGIES[i % TOPOLOGIES.len()].iter().map(|l| l.to_vec()).collect()
+}
+
+/// Topology from the number of local players per peer; handles are dealt round-robin so that a
+/// peer's handles are not contiguous (e.g. [2,1,2] -> [[0,3],[1],[2,4]]).
+pub fn topo_from_counts(counts: &[usize]) -> Vec<Vec<usize>> {
+    let mut peers: Vec<Vec<usize>> = counts.iter().map(|_| vec![]).collect();
+    let mut h = 0;
+    let mut round = 0;
+    loop {
+        let mut any = false;
+        for (i, c) in counts.iter().enumerate() {
+            if round < *c {
+                peers[i].push(h);
+                h += 1;
+                any = true;
+            }
+        }
+        if !any {
+            break;
+        }
+        round += 1;
+    }
+    peers
 }
